@@ -40,6 +40,24 @@ CLAIMS = {
         'technique': 'CFG guard-dominance, must-pass-through, reaching '
                      'definitions, linear-form comparison, who-may-write (ast)',
     },
+    'C13': {
+        'text': 'Taint analysis over every SFTPServer operation: each path '
+                'parameter reaches a filesystem call only through map_path '
+                '(one named exemption: symlink\'s relative link content, '
+                'required to be dominated by the realpath containment test); '
+                'map_path normalises with normpath(join(b"/", path)) and joins '
+                'the result, leading separator stripped, under the root; '
+                'reverse_map_path returns only for the root or root+"/" '
+                'prefixes; the SCP sink joins only names validated by '
+                '_parse_cd_args (rejects "/", "\\", ".."); recursive SFTP '
+                'copy joins a scandir name onto the destination only past the '
+                'separator and dot-dot tests. Holds for every path string at '
+                'once; tests try a handful of paths.',
+        'note': TB + 'not decided: symlinks planted inside the root by other '
+                'means, TOCTOU, user subclasses overriding map_path.',
+        'technique': 'intraprocedural taint (sources/sanitiser/sinks) over '
+                     'reaching definitions + CFG guard-dominance (ast)',
+    },
 }
 
 PENDING = 'check not built yet in this session (planned, see DESIGN.md section 5)'
